@@ -334,6 +334,10 @@ class CFG:
             n = self._new("stmt", s, [])
             self._edge(n.id, "next", follow)
             return n.id
+        # pure logging statements are transparent: `logger.debug(...)` etc. change no state a
+        # property talks about, and rules must not depend on their presence or position
+        if is_logging_stmt(s):
+            return follow
         # simple statement
         n = self._new("stmt", s, [s])
         self._edge(n.id, "next", follow)
@@ -447,8 +451,10 @@ class CFG:
         blocked = set()
         for n in self.nodes:
             if n.kind == "cond":
-                txt = ast.unparse(n.exprs[0])
-                if txt in assumptions:
+                from .astutil import utext as _ut, canon_text as _ct
+                txt = _ut(n.exprs[0])
+                if txt in assumptions or txt in {_ct(k) for k in assumptions}:
+                    assumptions = {_ct(k): v for k, v in assumptions.items()}
                     blocked.add((n.id, "F" if assumptions[txt] else "T"))
         return blocked
 
@@ -491,6 +497,22 @@ class CFG:
         via = set(via)
         r = self.reachable(src, via | set(blocked_nodes), blocked_edges, include_src=False)
         return dst not in r
+
+
+def is_logging_stmt(s):
+    """`logger.<level>(...)` / `logging.<level>(...)` as a statement, or a bare string / constant"""
+    if isinstance(s, ast.Expr) and isinstance(s.value, ast.Constant):
+        return True
+    if isinstance(s, ast.Expr) and isinstance(s.value, ast.Call) and isinstance(s.value.func, ast.Attribute):
+        f = s.value.func
+        return isinstance(f.value, ast.Name) and f.value.id in ("logger", "logging") and f.attr in (
+            "debug", "info", "warning", "error", "critical", "exception", "log")
+    return False
+
+
+def strip_logging(stmts):
+    """statement list without docstrings / logging statements (for shape comparisons)"""
+    return [s for s in stmts if not is_logging_stmt(s)]
 
 
 def walk_calls(exprs):
